@@ -183,7 +183,6 @@ func main() {
 
 	b0 := baseConf()
 	b1 := apply(b0, Delta{Global: map[string]any{"rtspUDPReadBufferSize": 65536, "authJWTInHTTPQuery": true}})
-	bases := map[string]map[string]any{"all-enabled": b0, "all-enabled+optional-pointer-parameters-set": b1}
 
 	var cases []*caseInfo
 	add := func(baseName string, kind, route string, old, nw map[string]any, steps []Delta, via []Delta, noIdentity bool) {
@@ -200,6 +199,8 @@ func main() {
 		return len(d.Defaults) > 0 || len(d.Paths) > 0 || d.Name == "authInternalUsers" || d.Name == "record" || d.Name == "recordDeleteAfter"
 	}
 
+	quickInPlace := map[string]bool{"authInternalUsers": true, "paths.add(p2)": true, "paths.delete(p1)": true,
+		"pathDefaults.recordDeleteAfter=0": true, "pathDefaults.maxReaders": true}
 	// --- singles: base -> base+d and base+d -> base, both routes
 	for _, d := range ds {
 		nw := apply(b0, d)
@@ -229,8 +230,9 @@ func main() {
 			if j <= i || conflict(a, b) {
 				continue
 			}
-			if !r.Thorough() && !(inPlace(a) || inPlace(b)) {
-				// quick tier: the pairs in which one change is reloaded in place (guards "if !closeX && changed")
+			if !r.Thorough() && !(quickInPlace[a.Name] || quickInPlace[b.Name]) {
+				// quick tier: the pairs in which one change is reloaded in place (guards "if !closeX && changed"),
+				// one representative per in-place reload
 				continue
 			}
 			if r.Thorough() && (a.Dep || b.Dep) && !(inPlace(a) || inPlace(b)) {
@@ -285,7 +287,6 @@ func main() {
 		}
 		cases = f
 	}
-	_ = bases
 
 	tmp, err := os.MkdirTemp("", "verif-c13-")
 	if err != nil {
